@@ -24,7 +24,7 @@ PROFILES = {
     "c06-all": Profile("c06-all", {
         "new_doc": 3, "new_sec": 12, "new_prop": 12, "create_section": 5, "create_property": 5,
         "append": 8, "insert": 6, "extend": 10, "remove": 4, "set_parent": 8, "setitem": 6,
-        "reorder": 2, "rename": 6, "clone": 3, "merge": 8, "set_link": 5, "set_include": 3, "save": 2, "merge_again": 5, "merge_self": 2, "finalize": 3, "linked_copy": 5, "clean": 3, "new_id": 4,
+        "reorder": 2, "rename": 6, "clone": 3, "merge": 8, "set_link": 5, "set_include": 3, "save": 2, "merge_again": 5, "merge_check": 6, "merge_self": 2, "finalize": 3, "linked_copy": 5, "clean": 3, "new_id": 4,
         "set_values": 8, "set_dtype": 6, "v_append": 5, "v_extend": 5, "v_insert": 4,
         "v_setitem": 4, "v_remove": 2, "set_card": 8, "set_attr": 3, "get_values": 1,
         "add_raising_rule": 1,
